@@ -12,6 +12,12 @@ vseed = int(os.environ.get("VERIF_SEED", "0"))
 for idx in range(a, b):
     rng = random.Random(runner.run_seed(vseed, prop, idx))
     spec = mod.gen(rng, tier)
+    if spec["sim"].pop("calibrate", False):
+        import json as _json
+        probe = _json.loads(_json.dumps(spec)); probe["sim"].update({"strategy": "pb", "d": 0, "stall_p": 0})
+        r0 = runner.execute(mod, probe)
+        if r0.harness_error is None and r0.sim.step > 10:
+            spec["sim"]["est"] = r0.sim.step
     t0 = time.time()
     r = runner.execute(mod, spec)
     oc = r.outcome[0] if r.outcome else None
